@@ -47,3 +47,49 @@ Proof. vm_compute. repeat split. Qed.
 
 (* the reader half of the property is checked on traces of the channel handlers (harness h_reader -mode c06) *)
 Require Verif.C06.RCheck.
+
+(* ---- start failures: the collection reader's start / quit protocol and the server goroutine that turns a reader error
+   into a pause (model: C06/Start.v, cases of harness h_c06s checked by C06.SCheck) ---- *)
+Require Verif.C06.Start Verif.C06.StartProofs Verif.C06.SCheck Verif.C06.SCheckProofs.
+
+(* for every history of creates, resumes, pauses, collections created while a task runs and pauses while a start is in
+   flight - with any start failing and any of the schedules the labels name: a paused task reads nothing (no collection is
+   started and not stopped), and a running task shows no reason *)
+Theorem C06_start_every_history : forall ls t k,
+  Start.get (Start.run Start.cfg_now [] ls) t = Some k ->
+  (Start.t_running k = false -> Start.t_active k = []) /\ (Start.t_running k = true -> Start.t_reason k = false).
+Proof. exact StartProofs.start_every_history. Qed.
+Print Assumptions C06_start_every_history.
+
+(* a start that fails anywhere in the initial load of a create or a resume - wherever the rest of the load is when the pause
+   goes through the reader - leaves the task paused with a reason and nothing being read *)
+Theorem C06_failing_load_pauses : forall s t create colls late,
+  StartProofs.loads s t create -> existsb snd colls = true ->
+  Start.get (fst (Start.step Start.cfg_now s (Start.LLoad t create colls late))) t = Some (Start.paused true []).
+Proof. exact StartProofs.failing_load_pauses. Qed.
+Print Assumptions C06_failing_load_pauses.
+
+(* the same for a collection created while the task runs *)
+Theorem C06_failing_watch_pauses : forall s t x k,
+  Start.get s t = Some k -> Start.t_running k = true ->
+  Start.get (fst (Start.step Start.cfg_now s (Start.LWatch t x true))) t = Some (Start.paused true []).
+Proof. exact StartProofs.failing_watch_pauses. Qed.
+Print Assumptions C06_failing_watch_pauses.
+
+(* no other task changes state, whatever the label does to its own *)
+Theorem C06_start_frame : forall c s l t', t' <> Start.task_of l -> Start.get (fst (Start.step c s l)) t' = Start.get s t'.
+Proof. exact StartProofs.step_frame. Qed.
+Print Assumptions C06_start_frame.
+
+(* the checker evaluated on the implementation's observations accepts every trace of this model *)
+Theorem C06_start_checker_accepts_model : forall k,
+  (forall l, In l (SCheck.sc_ops k) -> In (Start.task_of l) (SCheck.sc_tasks k)) ->
+  SCheck.sc_obs k = Start.trace Start.cfg_now [] (SCheck.sc_tasks k) (SCheck.sc_ops k) -> SCheck.check_C06s k = true.
+Proof. exact SCheckProofs.agreeing_case_accepted. Qed.
+Print Assumptions C06_start_checker_accepts_model.
+
+(* before the repair C06-start-after-quit the statement was false: a collection whose start completed after the pause
+   was read on by the paused task *)
+Theorem C06_start_after_quit_v1_refuted : exists ls, ~ StartProofs.Inv (Start.run Start.cfg_v1 [] ls).
+Proof. exact StartProofs.start_after_quit_v1_refuted. Qed.
+Print Assumptions C06_start_after_quit_v1_refuted.
